@@ -190,6 +190,12 @@ func (s *sender) recvAck(ackNo uint32) (uint32, error) {
 		return 0, errTooManyDuplicateACKs
 	}
 
+	if newAckNo > s.ackNo+uint64(len(s.frames)) {
+		// acknowledges frames that were never sent: ignore it
+		s.resetRetransmitTicker()
+		return 0, nil
+	}
+
 	// to not apply on the first 20 ACKs as the network probing is inaccurate
 	if oldAckNo == newAckNo && newAckNo > 20 {
 		missingFrameNo = s.onLoss(ackNo)
